@@ -13,7 +13,7 @@ PROPS = {
                     "the harness's reading of the generated match arms in the direct layer (the compiled layer does not depend on it)"],
     },
     "C13": {
-        "modules": ["BioSeq.Props.C13"],
+        "modules": ["BioSeq.Props.C13", "BioSeq.Props.Composed"],
         "exhaustive": True,
         "rule": "finite part enumerated completely: all 64 codons through the extracted graph (decided in Lean) and through the line protocol at bit offsets 0..32 "
                 "(sampled offsets in quick, all 33 in thorough); wrong-length codons; random DNA sequences translated by windows(3) and chunks(3); distinct = distinct line",
@@ -49,7 +49,7 @@ PROPS = {
                 "exhaustively and decided in Lean; distinct = distinct line",
     },
     "C16": {
-        "modules": ["BioSeq.Props.C16"],
+        "modules": ["BioSeq.Props.C16", "BioSeq.Props.Composed"],
         "programs": "c16",
         "rule": "three layers: (i) op lines calling dna_seq/iupac_seq directly (source inclusion) on valid literals of lengths 0..300 incl. word-boundary lengths, "
                 "literals with one offending character (lower case, N/U/X, digits, whitespace, multi-byte UTF-8), all 128 single ASCII characters, compared with the model and "
@@ -66,12 +66,14 @@ PROPS = {
         "trusted": ["bincode 1.3 and serde_json 1 assumed lossless on the serde data model (third party, not modelled)"],
     },
     "C09": {
+        "thorough_rounds": 2,
         "modules": ["BioSeq.Props.C09"],
         "rule": "k-mer operation op lines: rotated_left/right (counts 0,1,2,3,7,65535,65536,65537,2^32-1,K,2K,random), pushl/pushr (every symbol for small alphabets), "
                 "rev (to_rev and in-place), and for DNA comp/revcomp/canonical form; exhaustive over all canonical k-mers when K*BITS <= 8 (quick) / 12 (thorough), boundary "
                 "patterns + random otherwise; every fitting K (sampled in quick) x usize/u64/u128 x 7 codecs; distinct = distinct line",
     },
     "C02": {
+        "thorough_rounds": 4,
         "modules": ["BioSeq.Props.C02", "BioSeq.Props.Invariants"],
         "rule": "equality/hash op lines: 11 Seq/SeqSlice pairings x operands at independent bit offsets x {equal, one symbol changed (random/first/last), "
                 "proper prefix, proper suffix, longer, empty}, hash events of slices and owned copies (recording Hasher), == &str against own/other text, "
@@ -85,18 +87,19 @@ PROPS = {
                 "bit-op'd), from_raw with every count 0..capacity+2 and overflowing counts, from_raw of random word arrays; 7 codecs; distinct = distinct line",
     },
     "C06": {
+        "thorough_rounds": 4,
         "modules": ["BioSeq.Props.C06", "BioSeq.Props.Invariants"],
         "rule": "edit op lines: complete enumeration of edit histories of length <= 2 (quick) / 3 (thorough) over 12 ops on short DNA sequences; every edit with "
                 "in-bounds arguments on sequences around word boundaries for 7 codecs, argument slices at every reachable bit offset, all 15 RangeBounds forms of remove, "
                 "out-of-bounds arguments; random histories (depth <= 12, up to 200 symbols) from every production route incl. clones, with raw image; distinct = distinct line",
     },
     "C08": {
-        "modules": ["BioSeq.Props.C08"],
+        "modules": ["BioSeq.Props.C08", "BioSeq.Props.Composed"],
         "rule": "k-mer construction/iteration op lines: kmers::<K> vs windows(K) for every fitting K (sampled in quick) x n in {0,K-1,K,K+1,K+4} x offsets, "
                 "try_from (slice, owned), from_str (valid / wrong length / bad byte), unsafe_from, Display, Deref, From<Kmer> for Seq, usize/u64/u128; distinct = distinct line",
     },
     "C10": {
-        "modules": ["BioSeq.Props.C10"],
+        "modules": ["BioSeq.Props.C10", "BioSeq.Props.Composed"],
         "rule": "ordering op lines: all pairs of k-mers for K<=3 (sampled when large), random pairs for every fitting K x 3 storages, cmp/lt/le/partial_cmp consistency, "
                 "min/max/sort over a sequence's k-mers, Ord on owned sequences of equal and unequal lengths; the 5 Ord codecs; distinct = distinct line",
     },
